@@ -11,6 +11,16 @@ ID = "C20"
 PROPS_FILE = "Props/C20.v"
 COQ_TARGETS = ["Harness/H20.vo"]
 ALLOWED_AXIOMS = []
+# source translation (fail-closed): coq/Gen/Core.v is regenerated from the source text of C.REPO on every run; lsolve is
+# translated (translate:lsolve) but not yet tied to Model/LSolve.v by a Tie file (harness/translate/py2coq_core.py)
+def prebuild(ctx):
+    import os
+    import sys
+    sys.path.insert(0, os.path.join(C.VERIF, "harness", "translate"))
+    import py2coq_core
+    py2coq_core.prebuild(ctx, C, ["lsolve"])
+
+
 META = {
     "level_text": "PARTIAL. Machine-checked (Coq, exact arithmetic over Q) for the literal model of lsolve: a returned x satisfies A x = b for the original "
                   "A and b and is the unique solution; any matrix with a non-zero kernel vector is reported Singular for every threshold >= 0; with threshold 0 "
